@@ -731,4 +731,88 @@ def evalValueF (k : Cls) (facts : Str → Option AV) : Nat → Str → EV
 /-- `evaluate_expression(expr, facts)` -/
 def evalValue (k : Cls) (facts : Str → Option AV) (s : Str) : EV := evalValueF k facts (s.length + 1) s
 
+/-! ## P9 — the `SetWorkflowData("key=value")` / `set_workflow_data(..)` branch of `parse_action_statement`
+The one place where text is unmasked TWICE: the argument is unmasked, cut at its first `=` (two byte slices), the key is
+trimmed, and the value part — now ORDINARY text, in which the bytes of a literal body may look like a placeholder — goes through
+`parse_value`, which unmasks the strings it returns again. So `unmask` meets placeholder indices that the masker never wrote. -/
+
+/-- `str::trim_matches('"')` -/
+def trimMatchesQuote (s : Str) : Str := ((s.dropWhile (· == '"')).reverse.dropWhile (· == '"')).reverse
+
+/-- `data_str = unmask(args.trim())`, `data_str.find('=')`, `data_str[..eq].trim().trim_matches('"')`, `data_str[eq + 1..].trim()`:
+`(key, value text)`; `.err` = no `=` -/
+def wfDataSplit (k : Cls) (lits : List Str) (args : Str) : R (Str × Str) :=
+  bindR (unmask lits (trim k args)) fun data =>
+    match findChar data '=' with
+    | none => .err
+    | some p =>
+      match sliceTo data p, sliceFrom data (p + 1) with
+      | some kx, some vx => .ok (trimMatchesQuote (trim k kx), trim k vx)
+      | _, _ => .panic
+
+/-- the second unmask, as `parse_value` applies it to the strings it returns: `self.unmask(..)` on the unquoted literal / the
+expression text (one level: arrays inside a workflow value are unmasked element-wise by the driver) -/
+def unmaskLeaf (lits : List Str) : Val → R Val
+  | .str x => bindR (unmask lits x) fun y => .ok (.str y)
+  | .expr x => bindR (unmask lits x) fun y => .ok (.expr y)
+  | v => .ok v
+
+/-- the whole branch: `(key, value)` of `ActionType::SetWorkflowData` -/
+def wfData (k : Cls) (lits : List Str) (args : Str) : R (Str × Val) :=
+  bindR (wfDataSplit k lits args) fun kv =>
+    bindR (parseValue k kv.2) fun v =>
+      bindR (unmaskLeaf lits v) fun v' => .ok (kv.1, v')
+
+/-- projection used by examples (`Val` has no decidable equality): key and string value -/
+def wfStr : R (Str × Val) → Option (Str × Str)
+  | .ok (key, .str v) => some (key, v)
+  | _ => none
+
+/-- `unmask` with the table indexed DIRECTLY (`&self.literals[index]` instead of `self.literals.get(index)?`): sound only if every
+`MASK_START` of the text was written by the masker — refuted on the second unmask by `wfDataDirect_counterexample` -/
+def unmaskBodyDirect (lits : List Str) (after : Str) : R (Option (Str × Nat)) :=
+  match findChar after MASK_END with
+  | none => .ok none
+  | some e =>
+    match sliceTo after e with
+    | none => .panic
+    | some ds =>
+      match parseUsize ds with
+      | none => .ok none
+      | some idx =>
+        match lits[idx]? with
+        | none => .panic                          -- index out of bounds
+        | some b => .ok (some (b, e))
+
+def unmaskDirectGo (lits : List Str) : Nat → Str → R Str
+  | 0, _ => .oof
+  | fuel + 1, rest =>
+    match findChar rest MASK_START with
+    | none => .ok rest
+    | some st =>
+      match sliceTo rest st, sliceFrom rest (st + MASK_START.utf8Size) with
+      | some pre, some after =>
+        match unmaskBodyDirect lits after with
+        | .ok (some (body, e)) =>
+          (match sliceFrom after (e + MASK_END.utf8Size) with
+           | none => .panic
+           | some rest' => prependS (pre ++ body) (unmaskDirectGo lits fuel rest'))
+        | .ok none => prependS (pre ++ [MASK_START]) (unmaskDirectGo lits fuel after)
+        | .err => .err
+        | .panic => .panic
+        | .oof => .oof
+      | _, _ => .panic
+
+def unmaskDirect (lits : List Str) (s : Str) : R Str := unmaskDirectGo lits (s.length + 1) s
+
+/-- the value part of the branch with the direct-index `unmask` (first and second unmask) -/
+def wfValueDirect (lits : List Str) (args : Str) : R Str :=
+  bindR (unmaskDirect lits args) fun data =>
+    match findChar data '=' with
+    | none => .err
+    | some p =>
+      match sliceFrom data (p + 1) with
+      | some vx => unmaskDirect lits vx
+      | none => .panic
+
 end C05
